@@ -144,8 +144,8 @@ class C03(Property):
             if rep.outcome in ("RecursionError",):
                 out.viol("no_termination", f"run ended with {rep.outcome}", spec=spec)
             else:
-                out.notes.append(f"run aborted in {rep.phase}: {rep.outcome}")
-                out.count("aborted_runs")
+                # the generator only builds valid compositions: run() must return
+                out.viol("run_did_not_return", f"{rep.phase} of a valid composition raised {rep.outcome}: {rep.message[:200]}", spec=spec, trace=rep.trace)
             return out
         tcs = [c for c in spec["comps"] if c["type"] == "time"]
         # bounded progress
